@@ -385,6 +385,7 @@ func (u *Unit) havocEffects(s *State, eff *effects) {
 		s.Alloc = na
 	}
 	hav := func(k string) {
+		u.ensureHeap(s, k)
 		h, ok := s.Heaps[k]
 		if !ok {
 			return
@@ -393,6 +394,8 @@ func (u *Unit) havocEffects(s *State, eff *effects) {
 		_ = pre
 	}
 	if eff.all {
+		s.DirtyAll = true
+		s.DirtyNoFrame = true
 		for k := range s.Heaps {
 			hav(k)
 		}
@@ -832,6 +835,12 @@ func (u *Unit) havocPerModifies(s *State, env *SpecEnv, c *Contract, eff *effect
 	}
 	keys := map[string]bool{}
 	if eff.all {
+		s.DirtyAll = true
+		if c.ModSet || c.External {
+			s.DirtyFrames = append(s.DirtyFrames, &dirtyFrame{pre: preAlloc, locs: locs})
+		} else {
+			s.DirtyNoFrame = true
+		}
 		for k := range s.Heaps {
 			keys[k] = true
 		}
@@ -843,12 +852,22 @@ func (u *Unit) havocPerModifies(s *State, env *SpecEnv, c *Contract, eff *effect
 	for _, l := range locs {
 		keys[l.key] = true
 	}
+	// a contract WITHOUT a modifies clause says nothing about the frame: the callee's body is not
+	// frame-checked, so the caller may not assume any pre-existing memory of the heaps it can write
+	// is unchanged (pure/function/modifies-nothing contracts are checked in the callee). Assumed
+	// contracts of functions outside /repo keep the frame they state.
+	frameKnown := c.ModSet || c.External
 	for k := range keys {
+		u.ensureHeap(s, k)
 		h, ok := s.Heaps[k]
 		if !ok {
 			continue
 		}
 		nh := u.havocHeap(s, k, h)
+		if !frameKnown {
+			s.Heaps[k] = nh
+			continue
+		}
 		// frame assumption: pre-existing memory outside the modifies locations is unchanged
 		r := Leaf("r!m", "Int")
 		cond := Lt(r, preAlloc)
